@@ -4,20 +4,29 @@ P = dict(
     level='exploration',
     technique='runtime monitoring: independent reference parser of the help text\'s grammar (speaks only when an argv has exactly one reading as documented options) '
               'compared with every CommandLineArguments getter and with what CommandLineTestRunner executes on a probe registry (console/file/separate-process seams captured); '
-              'hostile argv (arbitrary bytes, truncations, mutations) in exact-size libc blocks under ASan/UBSan',
-    rule='cases: argument vectors. Two finite sub-domains are enumerated completely (every documented option form alone and in every ordered pair; every truncation / dropped argument of every form plus a table of malformed TEST( / group.name / number shapes); '
+              'hostile argv (arbitrary bytes, truncations, mutations) in exact-size libc blocks under ASan/UBSan; '
+              'the millisecond clock (the parser\'s only other input: default shuffle seed) is a pinned seam whose reading is part of every case; '
+              'applied -vv judged differentially against the same vector one verbosity level down',
+    rule='cases: argument vectors. Three finite sub-domains are enumerated completely (every documented option form alone and in every ordered pair; every truncation / dropped argument of every form plus a table of malformed TEST( / group.name / number shapes; '
+         'every clock-reading vector shape x the lattice of clock readings 2^k+d, m*2^32+d, 0, ULONG_MAX x constant/advancing clock); '
          'random sequences of documented options (attached/separated, identifier-like values with substring relations to the probe registry), filter-only vectors, arbitrary bytes 1..255, mutations of valid vectors. '
          'Non-trivial = a vector the reference reads as documented with >= 2 value-carrying options in mixed attached/separated form, or a vector outside the documented grammar that the parser rejects; distinct by the argv bytes',
     floor=dict(quick=20000, thorough=200000),
     counter_floor=dict(
-        quick={'configurations_compared': 40000, 'selection_runs': 30000, 'real_rejected': 20000, 'list_outputs_compared': 1000, 'separate_process_runs': 1000, 'output_kind_applied_junit': 500, 'output_kind_applied_teamcity': 500},
-        thorough={'configurations_compared': 300000, 'selection_runs': 200000, 'real_rejected': 100000, 'list_outputs_compared': 5000, 'separate_process_runs': 5000, 'output_kind_applied_junit': 3000, 'output_kind_applied_teamcity': 3000},
+        quick={'configurations_compared': 40000, 'selection_runs': 30000, 'real_rejected': 20000, 'list_outputs_compared': 1000, 'separate_process_runs': 1000, 'output_kind_applied_junit': 500, 'output_kind_applied_teamcity': 500,
+               'very_verbose_differential_checked': 2000, 'very_verbose_differential_checked_with_v_too': 400, 'verbose_output_checked_junit_composite': 100,
+               'unseeded_shuffle_vectors_clock_nonzero_multiple_of_2p32': 1000, 'unseeded_shuffle_vectors_clock_zero': 100, 'unseeded_shuffle_vectors_clock_low32_all_ones': 800},
+        thorough={'configurations_compared': 300000, 'selection_runs': 200000, 'real_rejected': 100000, 'list_outputs_compared': 5000, 'separate_process_runs': 5000, 'output_kind_applied_junit': 3000, 'output_kind_applied_teamcity': 3000,
+                  'very_verbose_differential_checked': 10000, 'very_verbose_differential_checked_with_v_too': 2000, 'verbose_output_checked_junit_composite': 500,
+                  'unseeded_shuffle_vectors_clock_nonzero_multiple_of_2p32': 3000, 'unseeded_shuffle_vectors_clock_zero': 300, 'unseeded_shuffle_vectors_clock_low32_all_ones': 2500},
     ),
     assumptions=[
         'filter lists are compared as multisets (the help text does not document an order; filters are OR-ed per C02)',
         'a scalar option (-r, -s, -o, -k) given several times with different values may yield any of the given values (the help text does not say which occurrence wins); which one won is counted',
         'unknown options and values outside an option\'s documented domain (-r0, -s0, -t without a dot, ...) are not required to be rejected; when they are, usage/help must be printed and nothing may run',
-        'the shuffle seed is compared only when every -s carries one (otherwise it comes from the clock)',
+        'the shuffle seed is compared only when every -s carries one (otherwise it comes from the clock: which value it becomes is not documented and only counted; that the documented vector is accepted whatever the clock reads is judged)',
+        'the clock is replaced through the GetPlatformSpecificTimeInMillis seam for the whole case (constant, or advancing by 1 per reading): durations in the output are 0 or tiny',
+        '-vv ("print internal information during test run") is judged without fixing the wording: the console output must be strictly longer than that of the same vector with every -vv replaced by -v (same registry, same clock), also when -v is given too and for the console that accompanies -ojunit; -v alone printing more than test names is not judged',
         'separate-process mode is observed through the PlatformSpecificRunTestInASeperateProcess seam (no fork); -f is parsed, never combined with a failing test',
         'runs with a parsed repeat count > 8 are not executed (parser getters only)',
         'signed-integer-overflow in AtoI on unrepresentable numbers is counted, not fatal (DESIGN.md section 5)',
